@@ -535,6 +535,29 @@ def cross_cases(rng, n):
     return out
 
 
+def teardown_cases(rng, n):
+    """the window between the end of an arbiter's command loop and the exit of its thread: a pending task with a slow destructor
+    (kind q) keeps the thread alive while the runtime is torn down; once that teardown has begun (jd = the task is being dropped: the
+    loop has ended, its receiver is gone) every spawn — owner handle or cloned handle — must report false and start nothing"""
+    out = []
+    for r in range(n):
+        ops = ["n:" + rng.choice("sf")]
+        ops.append("sp:0:q:%s" % rng.choice("oh"))
+        q = len(ops) - 1
+        if rng.random() < 0.7:
+            ops.append("aw:0:%d" % q)
+        for _ in range(rng.randint(0, 2)):
+            ops.append("%s:0:c:%s" % ("sf" if rng.random() < 0.6 else "sp", rng.choice("oh")))
+        ops.append("st:0:%s" % rng.choice("oh"))
+        ops.append("jd:0")
+        for _ in range(rng.randint(1, 3)):
+            ops.append("%s:0:c:%s" % ("sf" if rng.random() < 0.5 else "sp", rng.choice("ooht")))
+        ops.append("j:0")
+        seed = rng.randrange(1, 10 ** 6) * 4 + r % 4
+        out.append("%s %d %s" % ("R" if r % 4 == 0 else "W", seed, " ".join(ops)))
+    return out
+
+
 def burst_cases(rng, n, flavour):
     """a long backlog: while a gate task keeps an arbiter's thread busy, 33..80 commands are queued for it; then either the last of
     them is awaited and the arbiter stopped and joined (C10: all of them start, in order), or the system is stopped from another
@@ -654,6 +677,7 @@ def check(ctx, pid):
     if flavour == "c10":
         cases += gate_cases(ctx.rng, 150 if quick else 3000)
         cases += cross_cases(ctx.rng, 60 if quick else 1200)
+        cases += teardown_cases(ctx.rng, 40 if quick else 800)
     if flavour == "c09":
         cases += busy_system_cases(ctx.rng, 120 if quick else 2500)
         cases += sysarb_stopped_cases(ctx.rng, 60 if quick else 1200)
